@@ -7,7 +7,8 @@ compiled on every run with ASan + UBSan.
 Model: FeVerif/Model/Crc32.lean, FeVerif/Model/Encoder.lean through the driver commands crcspec / crctab / crcsplit /
 crclin / encode / validate.
 Oracle: the property statement, written directly below (the three CRC routines agree; the encoder's fields; every
-validator accepts encoder output; every validator rejects every altered message).
+validator accepts encoder output; every validator rejects every altered message - in particular a message whose size
+field was altered to any value is refused without a read outside the caller's buffer, C06_oversize_rejected).
 """
 import itertools
 import json
@@ -38,12 +39,57 @@ def build_harness(ctx):
     return exe
 
 
-def run_harness(ctx, exe, lines):
+FAULTS = {}      # request line during which the harness died -> one-line summary of the sanitizer report
+
+
+def fault_summary(stderr):
+    first = [l.strip() for l in stderr.split('\n') if 'ERROR: ' in l or 'runtime error' in l]
+    frames = [l.strip() for l in stderr.split('\n') if l.strip().startswith('#') and ('point_one' in l or 'c06_harness' in l)]
+    return ((first[0] if first else stderr.strip()[-200:]) + ' | ' + ' <- '.join(f.split(' in ', 1)[-1] for f in frames[:3]))[:600]
+
+
+def run_mut(ctx, exe, jobs, step=400):
+    """jobs: [(message bytes, [spec, ...], None | (total buffer length, fill byte))] -> per job the list of per-spec answers
+    ('<IsValid><crc compare><framer callbacks>' or 'fault').  A request during which the harness dies is repeated one spec per
+    request, so that 'fault' is attributed to exactly the altered copies on which the code under test faults."""
+    def line(msg, specs, pad):
+        if pad is None:
+            return 'mut %s %s' % (hx(msg), ';'.join(specs))
+        return 'mutp %s %d %d %s' % (hx(msg), pad[0], pad[1], ';'.join(specs))
+    lines, where = [], []
+    for j, (msg, specs, pad) in enumerate(jobs):
+        for i in range(0, len(specs), step):
+            lines.append(line(msg, specs[i:i + step], pad))
+            where.append((j, i, len(specs[i:i + step])))
+    out = run_harness(ctx, exe, lines)
+    res = [[None] * len(specs) for _, specs, _ in jobs]
+    again = []
+    for (j, i, n), ans in zip(where, out):
+        if ans == 'fault':
+            again += [(j, i + k) for k in range(n)]
+        else:
+            parts = ans.split(',')
+            if len(parts) != n:
+                raise fv.InfraError('mut: %d answers for %d specs' % (len(parts), n))
+            res[j][i:i + n] = parts
+    for j, k in again[1200:]:          # every faulting request has at least one spec among the ones repeated singly
+        res[j][k] = 'skip'
+        ctx.count('cxx_fault_request_specs_not_repeated_singly')
+    again = again[:1200]
+    if again:
+        single = [line(jobs[j][0], [jobs[j][1][k]], jobs[j][2]) for j, k in again]
+        out2 = run_harness(ctx, exe, single, nproc=12)
+        for (j, k), l, ans in zip(again, single, out2):
+            res[j][k] = 'fault:' + FAULTS.get(l, '?') if ans == 'fault' else ans
+    return res
+
+
+def run_harness(ctx, exe, lines, nproc=None):
     """One answer per request line.  A request during which the process dies (sanitizer report) is answered
     'fault' and the sanitizer text is kept in ctx.notes."""
     if not lines:
         return []
-    nproc = min(12, max(1, len(lines) // 40))
+    nproc = min(12, len(lines), nproc or max(1, len(lines) // 40))
     chunks = [lines[i::nproc] for i in range(nproc)]
     results = [None] * nproc
     env = dict(os.environ, ASAN_OPTIONS='detect_leaks=1:abort_on_error=0:allocator_may_return_null=1',
@@ -65,6 +111,7 @@ def run_harness(ctx, exe, lines):
             # died while executing request len(ans)
             res.append('fault')
             ctx.notes.append('harness died on request %r: %s' % (todo[len(ans)][:200], p.stderr[-1500:]))
+            FAULTS[todo[len(ans)]] = fault_summary(p.stderr)
             todo = todo[len(ans) + 1:]
         results[i] = res
     ths = [threading.Thread(target=work, args=(i,)) for i in range(nproc)]
@@ -513,6 +560,107 @@ def flips_for(ctx, msg, exhaustive_pairs):
     return res
 
 
+MAXSZ = 1 << 24          # MessageHeader::MAX_MESSAGE_SIZE_BYTES = MessageHeader._MAX_EXPECTED_SIZE_BYTES
+FIELDS32 = (('crc', 4), ('sequence_number', 12), ('payload_size_bytes', 16), ('source_identifier', 20))
+
+
+def size_values(n, total):
+    """Values to write into payload_size_bytes of an n-byte message that sits at the start of a buffer of `total` bytes: every
+    boundary of every comparison / sum a validator may form from the field (24 + size against the limit, against the bytes that
+    exist, against 2^k for the width of any integer type), on both sides."""
+    size = n - HDR
+    v = set(range(0, 26)) | {size + d for d in (-2, -1, 1, 2)} | {n + d for d in (-1, 0, 1)}
+    v |= {total + d for d in (-HDR - 1, -HDR, -HDR + 1, -1, 0, 1)}
+    v |= {size - HDR, size + HDR, size - 8, size + 8, size - 16, size + 16}          # header / CRC-region offsets applied twice or not at all
+    for k in (7, 8, 15, 16, 23, 24, 31, 32):
+        v |= {(1 << k) + d for d in (-HDR - 1, -HDR, -HDR + 1, -1, 0, 1, HDR)}
+        v |= {size + (1 << k), size | (M32 + 1 - (1 << k)) & M32}       # the same size modulo 2^k; the bits above k all set
+    v |= {MAXSZ + d for d in (-HDR - 1, -HDR, -HDR + 1, -17, -16, -15, -9, -8, -7, -1, 0, 1, HDR - 1, HDR, HDR + 1)}
+    v |= {(1 << 32) - HDR + k for k in range(-2, HDR)}                  # 24 + size = 2^32 - 2 ... 2^32 + 23
+    v |= {(1 << 32) - 16 + k for k in range(-2, 2)} | {(1 << 32) - 8 + k for k in range(-2, 2)}
+    v |= {(1 << 32) - n + d for d in (-1, 0, 1)} | {(1 << 32) - total + d for d in (-1, 0, 1)} | {(1 << 32) + size - HDR}
+    v |= {(1 << 31) + size, (1 << 31) - size, (1 << 32) - size, (1 << 32) - size - HDR}
+    return sorted(x for x in v if 0 <= x <= M32 and x != size)
+
+
+def set_field(msg, off, width, value):
+    """Bit indices that differ between the little-endian field at [off, off + width) of msg and `value`."""
+    cur = int.from_bytes(msg[off:off + width], 'little')
+    return tuple(8 * off + k for k in range(8 * width) if (cur ^ value) >> k & 1)
+
+
+def force_window(msg, s, span, mode):
+    """Bit indices of the window [s, s + span) that change when all its bits are set ('one'), cleared ('zero') or inverted ('inv')."""
+    bits = []
+    for b in range(s, s + span):
+        cur = msg[b // 8] >> (b % 8) & 1
+        if mode == 'inv' or (mode == 'one') != bool(cur):
+            bits.append(b)
+    return tuple(bits)
+
+
+def boundary_bursts(ctx, msg, total, full):
+    """Alterations confined to <= 32 contiguous bits that put a boundary VALUE into a field (rather than flipping random bits):
+    (1) payload_size_bytes := every value of size_values();
+    (2) full only: for each 32-bit header field, its top k and its low k bits all set / all cleared / all inverted, k = 1..32
+        (every k for payload_size_bytes and crc, which the validators interpret; a subset for the two they only checksum);
+    (3) full only: every window of 32 bits that overlaps payload_size_bytes (every one starting in the header for thorough)
+        set / cleared / inverted.
+    Returns [(kind, bits)], duplicates and empty alterations removed."""
+    n = len(msg)
+    seen, res = set(), []
+
+    def add(bits):
+        if bits and bits not in seen and max(bits) - min(bits) < 32:
+            seen.add(bits)
+            res.append(('burst', bits))
+    for v in size_values(n, total):
+        add(set_field(msg, 16, 4, v))
+    ctx.count('boundary_size_values', len(res))
+    if full:
+        for name, off in FIELDS32:
+            ks = range(1, 33) if name in ('crc', 'payload_size_bytes') or ctx.thorough else (1, 2, 8, 16, 24, 27, 28, 31, 32)
+            for k in ks:
+                for mode in ('one', 'zero', 'inv'):
+                    add(force_window(msg, 8 * off + 32 - k, k, mode))
+                    add(force_window(msg, 8 * off, k, mode))
+        lo, hi = (64, 8 * HDR) if ctx.thorough else (8 * 16 - 31, 8 * 20)
+        for st in range(lo, hi):
+            span = min(32, 8 * n - st)
+            for mode in ('one', 'zero', 'inv'):
+                add(force_window(msg, st, span, mode))
+    return res
+
+
+def check_padded(ctx, exe, msgs, model_lines, model_pend):
+    """The altered message at the start of a LARGER caller buffer (IsValid / CalculateCRC(const void*) take no length: what they
+    may read is decided by the size field alone).  A few messages x buffer lengths around the message, around 2^16 and 2^17 and
+    around the 2^24 limit x payload_size_bytes := size_values(message length, buffer length).  Every copy must be refused."""
+    rng = ctx.rng
+    pool = sorted(set(b for _, b in msgs), key=len)
+    pick = [pool[0]] + rng.sample(pool[1:], min(len(pool) - 1, 8 if ctx.thorough else 3))
+    jobs, pend = [], []
+    for idx, msg in enumerate(pick):
+        n = len(msg)
+        totals = [n + 1, n + 8, n + 23, n + 24, n + 25, n + 255, n + 4096, n + 65536 + 1, (1 << 17) + 64]
+        if idx == 0 or ctx.thorough:
+            totals += [MAXSZ - 1, MAXSZ, MAXSZ + 1, MAXSZ + HDR, MAXSZ + 4096]
+        else:
+            totals.append(rng.choice([MAXSZ - 1, MAXSZ, MAXSZ + 1, MAXSZ + HDR]))
+        for total in totals:
+            fill = rng.choice([0, 0, 0xA5, 0xFF])
+            cases = [bits for _, bits in boundary_bursts(ctx, msg, total, False)]
+            jobs.append((msg, [bits_to_spec(b) for b in cases], (total, fill)))
+            pend.append((msg, cases, total, fill))
+    answers = run_mut(ctx, exe, jobs, step=60)
+    for (msg, cases, total, fill), cx in zip(pend, answers):
+        tail = bytes([fill]) * (total - len(msg))
+        for bits, c in zip(cases, cx):
+            if c != 'skip':
+                ctx.count('padded_buffer_cases')
+                judge_flip(ctx, 'in-%d-byte-buffer' % total, msg, 'burst', bits, c, None, model_lines, model_pend, tail=tail, fill=fill)
+
+
 def check_corruption(ctx, exe, encoded):
     rng = ctx.rng
     # one message per distinct length <= 64 gets the exhaustive double flips in Python (all of them in C++)
@@ -528,37 +676,32 @@ def check_corruption(ctx, exe, encoded):
         msgs.append((label, b))
     # some messages followed by another message in the same stream (the decoder must not lose its footing)
     follower = encoded[0][1]
-    hl, dl, pend = [], [], []
+    # the field-window families of boundary_bursts() on one message per distinct length (a rotating dozen in the quick tier);
+    # the size-field values on every message
+    reps = [b for _, b in sorted(by_len.values(), key=lambda x: len(x[1])) if len(b) <= 2000]
+    if not ctx.thorough and len(reps) > 12:
+        reps = reps[:2] + rng.sample(reps[2:], 10)
+    reps = set(reps)
+    jobs, pend, pair_lines = [], [], []
     for label, msg in msgs:
         exh = len(msg) <= 64
         cases = flips_for(ctx, msg, exh)
-        specs = [bits_to_spec(bits) for _, bits in cases]
-        step = 400
-        for i in range(0, len(cases), step):
-            hl.append('mut %s %s' % (hx(msg), ';'.join(specs[i:i + step])))
+        bnd = boundary_bursts(ctx, msg, len(msg), msg in reps)
+        ctx.count('boundary_bursts', len(bnd))
+        cases += bnd
+        jobs.append((msg, [bits_to_spec(bits) for _, bits in cases], None))
         pend.append((label, msg, cases))
         if exh:
-            hl.append('pairs %s 32 %d' % (hx(msg), 8 * len(msg)))
-    hout = run_harness(ctx, exe, hl)
-    hi = 0
+            pair_lines.append('pairs %s 32 %d' % (hx(msg), 8 * len(msg)))
+    answers = run_mut(ctx, exe, jobs)
+    pout = iter(run_harness(ctx, exe, pair_lines, nproc=12))
     model_lines, model_pend = [], []
-    for label, msg, cases in pend:
-        cx = []
-        for i in range(0, len(cases), 400):
-            ans = hout[hi]
-            hi += 1
-            if ans == 'fault':
-                ctx.violation('C06/cxx-fault-on-corrupted-message', 'sanitizer report while validating altered copies of a message',
-                              {'kind': 'flip', 'label': label, 'msg': hx(msg), 'bits': list(cases[i][1])})
-                cx += ['fff'] * len(cases[i:i + 400])
-            else:
-                cx += ans.split(',')
+    for (label, msg, cases), cx in zip(pend, answers):
         for (kind, bits), c in zip(cases, cx):
-            judge_flip(ctx, label, msg, kind, bits, c, follower, model_lines, model_pend)
+            if c != 'skip':
+                judge_flip(ctx, label, msg, kind, bits, c, follower, model_lines, model_pend)
         if len(msg) <= 64:
-            ans = hout[hi]
-            hi += 1
-            judge_pairs_cxx(ctx, label, msg, ans)
+            judge_pairs_cxx(ctx, label, msg, next(pout))
             if by_len[len(msg)][1] == msg or ctx.thorough:
                 pairs_python(ctx, label, msg)
             else:
@@ -567,6 +710,7 @@ def check_corruption(ctx, exe, encoded):
                 for _ in range(1500):
                     i, j = rng.sample(range(32, nb), 2)
                     judge_flip(ctx, label, msg, 'double', (min(i, j), max(i, j)), None, None, model_lines, model_pend)
+    check_padded(ctx, exe, msgs, model_lines, model_pend)
     outs = ctx.driver(model_lines)
     for (replay, want), got in zip(model_pend, outs):
         m = parse_kv(got)
@@ -576,12 +720,19 @@ def check_corruption(ctx, exe, encoded):
                 break
 
 
-def judge_flip(ctx, label, msg, kind, bits, cx, follower, model_lines, model_pend, always_model=False):
-    """One altered copy: every validator must reject it."""
-    bad = apply_bits(msg, bits)
+def judge_flip(ctx, label, msg, kind, bits, cx, follower, model_lines, model_pend, always_model=False, tail=b'', fill=0):
+    """One altered copy (followed by `tail` in the same buffer): every validator must reject it."""
+    bad = apply_bits(msg, bits) + tail
     region = region_of(bits)
-    replay = {'kind': 'flip', 'label': label, 'msg': hx(msg), 'bits': list(bits), 'altered': hx(bad), 'flip_kind': kind}
-    ctx.case(b'flip' + bad, nontrivial=True)
+    size2 = struct.unpack_from('<I', bad, 16)[0]
+    replay = {'kind': 'flip', 'label': label, 'msg': hx(msg), 'bits': list(bits), 'flip_kind': kind,
+              'altered_header': hx(bad[:HDR]), 'altered_payload_size_bytes': size2}
+    if tail:
+        replay.update({'total': len(bad), 'fill': fill})
+    if len(bad) <= 4096:
+        replay['altered'] = hx(bad)
+    small = len(bad) <= 8192        # the Python decoder resynchronises byte by byte: long buffers go to the validators only
+    ctx.case(b'flip' + (bad if small else bad[:len(msg)] + b'%d.%d' % (len(bad), fill)), nontrivial=True)
     ctx.count('%s_%s' % (kind, region))
     tag = '%s-%s' % (kind, 'size-field' if 'size' in region else ('crc-field' if region == 'crc' else 'protected-region' if region == 'data' else 'both-regions'))
     pv = py_validate(bad)
@@ -590,9 +741,10 @@ def judge_flip(ctx, label, msg, kind, bits, cx, follower, model_lines, model_pen
         accepted.append(('validate_crc', 'unpack(validate_crc=True) -> %s' % pv))
     run_decoders = cx is not None
     if run_decoders:
-        dec = py_decode(bad)
-        if isinstance(dec, str) or any(o == 0 for o, _ in dec):
-            accepted.append(('python-decoder', 'decoder returned %s' % (dec if isinstance(dec, str) else [(o, len(r)) for o, r in dec])))
+        if small:
+            dec = py_decode(bad)
+            if isinstance(dec, str) or any(o == 0 for o, _ in dec):
+                accepted.append(('python-decoder', 'decoder returned %s' % (dec if isinstance(dec, str) else [(o, len(r)) for o, r in dec])))
         if follower is not None and (kind != 'single' or bits[0] % 3 == 0):
             dec2 = py_decode(bad + follower)
             if isinstance(dec2, str) or any(o == 0 for o, _ in dec2):
@@ -601,16 +753,27 @@ def judge_flip(ctx, label, msg, kind, bits, cx, follower, model_lines, model_pen
             elif 'size' not in region and (len(msg), follower) not in dec2:
                 ctx.violation('C06/decoder-lost-following-message', 'the valid message after the altered %s was not returned: %s' %
                               (label, [(o, len(r)) for o, r in dec2]), replay)
-        if cx[0] == '1':
-            accepted.append(('IsValid', 'IsValid() -> true'))
-        if cx[1] == '1':
-            accepted.append(('cxx-crc-compare', 'header.crc == CalculateCRC(buffer)'))
-        if cx[2] not in '0':
-            accepted.append(('framer', 'framer made %s callbacks' % cx[2]))
-        if cx[0] == 'o':
-            ctx.count('cxx_not_called_would_read_past_buffer')
+        if cx.startswith('fault'):
+            # the sanitizer stopped the harness while the C++ validators looked at exactly this altered copy
+            ctx.violation('C06/cxx-fault-on-corrupted-message',
+                          'sanitizer report while IsValid / CalculateCRC(buffer) / the framer validated %s (%d bytes%s) with bits %s altered '
+                          '(payload_size_bytes %d -> %d = 0x%x); must be rejected without reading outside the buffer: %s'
+                          % (label, len(msg), ', in a %d-byte heap buffer' % len(bad) if tail else ', exact-size heap buffer', list(bits),
+                             len(msg) - HDR, size2, size2, cx[6:] or 'see the notes'), replay)
+            cx = 'fff'
+        else:
+            if cx[0] == '1':
+                accepted.append(('IsValid', 'IsValid() -> true'))
+            if cx[1] == '1':
+                accepted.append(('cxx-crc-compare', 'header.crc == CalculateCRC(buffer)'))
+            if cx[2] not in '0':
+                accepted.append(('framer', 'framer made %s callbacks' % cx[2]))
+            if cx[0] == 'o':
+                ctx.count('cxx_not_called_would_read_past_buffer')
+            # the verdict the size limits alone dictate (C06_oversize_rejected): above the limit IsValid is called and says no
+            if HDR + size2 > MAXSZ and cx[0] != '0':
+                ctx.violation('C06/%s-not-refused-by-IsValid-size-limit' % tag, 'IsValid -> %s for payload_size_bytes = %d' % (cx[0], size2), replay)
     if accepted:
-        size2 = struct.unpack_from('<I', bad, 16)[0]
         crc32 = repo_crc32()
         reframed = 'size' in region and HDR + size2 <= len(bad) and crc32(bad[8:HDR + size2]) == struct.unpack_from('<I', bad, 4)[0]
         if reframed:
@@ -622,7 +785,7 @@ def judge_flip(ctx, label, msg, kind, bits, cx, follower, model_lines, model_pen
             for who, what in accepted:
                 ctx.violation('C06/%s-accepted-by-%s' % (tag, who), '%s on %s with bits %s flipped' % (what, label, list(bits)), replay)
     # correspondence with the model validators on a subset (all bursts and doubles handed to C++, every 5th single)
-    if run_decoders and (always_model or kind != 'single' or bits[0] % 5 == 0):
+    if run_decoders and small and (always_model or kind != 'single' or bits[0] % 5 == 0):
         model_lines.append('validate ' + hx(bad))
         model_pend.append((replay, {'py': py_canon(pv), 'cxx': {'1': '1', '0': '0', 'o': 'oob', 'f': None}[cx[0]],
                                     'framer': {'1': '1', '0': '0', 'o': '0', 'f': None}[cx[1]]}))
@@ -773,6 +936,13 @@ def check(ctx):
                        'Corruption: for every distinct encoded message every single-bit flip of bytes [4, end), double flips (all pairs for messages '
                        '<= 64 bytes, sampled otherwise), bursts <= 32 bits at random positions inside one region; each altered copy given to '
                        'unpack(validate_crc=True), FusionEngineDecoder (alone and followed by a valid message), IsValid, the CRC compare and the C++ framer. '
+                       'Boundary values: for every such message payload_size_bytes set to every boundary of 24 + size against 2^24, against the '
+                       'bytes that exist and against 2^k (k = 7..32, both sides; 24 + size = 2^32 - 2 .. 2^32 + 23 each); for one message per '
+                       'distinct length the top k / low k bits (k = 1..32) of each 32-bit header field and every 32-bit window overlapping the '
+                       'size field all set / cleared / inverted; the same size values with the altered message at the start of larger heap '
+                       'buffers (message + 1 .. + 65537 bytes, 2^17 + 64, 2^24 - 1 .. 2^24 + 4096 bytes). IsValid is called whenever the property '
+                       'lets it decide from bytes that exist (always when 24 + size exceeds 2^24); a sanitizer report is attributed to the single '
+                       'altered copy that causes it. '
                        'A case is distinct by its canonical bytes; all cases process at least one message or buffer.')
     ctx.assumptions += [
         'zlib.crc32 / crc.cc equal the Lean definitions on every buffer: proved for crc.cc\'s algorithm as transcribed (C06_table_crc_eq_spec), '
@@ -813,11 +983,15 @@ def replay(ctx, path):
     elif kind in ('flip', 'pairs') and 'bits' in r:
         msg = bytes.fromhex(r['msg'])
         bits = tuple(r['bits'])
-        cx = run_harness(ctx, exe, ['mut %s %s' % (hx(msg), bits_to_spec(bits))])[0]
+        pad = (r['total'], r.get('fill', 0)) if r.get('total') else None
+        tail = bytes([pad[1]]) * (pad[0] - len(msg)) if pad else b''
+        cx = run_mut(ctx, exe, [(msg, [bits_to_spec(bits)], pad)])[0][0]
         lines, pend = [], []
-        judge_flip(ctx, r.get('label', '?'), msg, r.get('flip_kind', 'double'), bits, cx, None, lines, pend)
-        print('altered %s: validate_crc -> %s, decoder -> %s, c++ (IsValid, crc compare, framer callbacks) -> %s'
-              % (hx(apply_bits(msg, bits)), py_validate(apply_bits(msg, bits)), py_decode(apply_bits(msg, bits)), cx))
+        judge_flip(ctx, r.get('label', '?'), msg, r.get('flip_kind', 'double'), bits, cx, None, lines, pend, tail=tail, fill=pad[1] if pad else 0)
+        bad = apply_bits(msg, bits) + tail
+        print('altered %s%s: validate_crc -> %s, decoder -> %s, c++ (IsValid, crc compare, framer callbacks) -> %s'
+              % (hx(bad[:len(msg)]), ' + %d bytes 0x%02x' % (len(tail), pad[1]) if pad else '', py_validate(bad),
+                 py_decode(bad) if len(bad) <= 8192 else 'not run (long buffer)', cx))
     elif kind == 'valid':
         b = bytes.fromhex(r['msg'])
         cx = run_harness(ctx, exe, ['msg ' + hx(b)])[0]
